@@ -1,7 +1,10 @@
 (* C18 — initial-position helpers: right shape, seeded ones are pure, prefix property.
    Model: Model/Init.v.  `draws` is the stream of standard-normal variates the (unmodelled)
    ziggurat sampler produces from the seeded generator; `conv` is the f64 -> T conversion. *)
-From MiniMcmc Require Import Base.Fp Base.Util Model.Init Proofs.Init.
+From MiniMcmc Require Import Base.Fp Base.Util Model.Init Proofs.Init Proofs.Conv.
+From Coq Require Import Reals.
+From Flocq Require Import Core.Raux Core.Generic_fmt Core.FLT Core.Round_NE.
+Close Scope R_scope.
 
 Section C18.
   Context {A D : Type}.
@@ -48,3 +51,16 @@ Print Assumptions C18_shape.
 Print Assumptions C18_entry.
 Print Assumptions C18_prefix.
 Print Assumptions C18_pure.
+
+(* the f64 -> f32 conversion of a finite draw of moderate magnitude (|x| <= 2^100; any normal
+   draw is far below) does not overflow and is the correctly rounded (nearest-even) binary32
+   value of the draw *)
+Theorem C18_conv_finite : forall x : binary64,
+  Binary.is_finite 53 1024 x = true ->
+  (Rabs (Binary.B2R 53 1024 x) <= bpow radix2 100)%R ->
+  Binary.is_finite 24 128 (f64_to_f32 x) = true /\
+  Binary.B2R 24 128 (f64_to_f32 x)
+  = round radix2 (FLT_exp (3 - 128 - 24) 24) ZnearestE (Binary.B2R 53 1024 x).
+Proof. exact f64_to_f32_finite. Qed.
+
+Print Assumptions C18_conv_finite.
